@@ -386,6 +386,11 @@ Fixpoint agg_loop (tbl : list (Z * (Z -> dec))) (fuel : nat) (s : stream) (cur :
       else Ok (VSeq cur) s
   end.
 
+(* the test guarding the pointee allocation in unique_ptr.h / shared_ptr.h (regenerated: 1 = GetDirectBufferPointer,
+   i.e. "some byte is readable"; anything else would be the BytesUntilLimit() > 0 test of vector.h) *)
+Definition ptr_guard (kind : Z) (s : stream) : bool :=
+  if kind =? 1 then has_data s else vec_loop_cond (bul s).
+
 Definition is_fp (t : ty) : bool := match t with TS KF32 | TS KF64 => true | _ => false end.
 Definition seq_items (v : val) : list val := match v with VSeq l => l | _ => [] end.
 
@@ -407,7 +412,7 @@ Fixpoint decode (t : ty) : dec :=
                (S (length (win s))) s (seq_items cur)
   | TArr _ e => fun s cur => arr_go (dec_packed e (decode e)) s (seq_items cur)
   | TPtr sh e => fun s cur =>
-      if has_data s then
+      if ptr_guard (if sh then sptr_guard_kind else uptr_guard_kind) s then
         match decode e s (match cur with VSome x => if sh then dflt e else x | _ => dflt e end) with
         | Ok x s' => Ok (VSome x) s'
         | r => r
